@@ -17,7 +17,7 @@ def fam(name, scripts, tier='quick', witness=False, w=2, opts=None, **kw):
         defs.append('%s=%s' % (k, v))
     if witness:
         defs.append('WITNESS=1')
-    o = {'max_viol': 400, 'time_limit': 420 if tier == 'quick' else 2400}
+    o = {'max_viol': 400, 'time_limit': 900 if tier == 'quick' else 2400}
     o.update(opts or {})
     return Family(name + ('-witness' if witness else ''), 'h_sim.c', 'h_sim', defs, opts=o, tier=tier, witness=witness, weight=w, validate=3)
 
@@ -239,7 +239,7 @@ FAMILIES['C14'] = [
 # C13 with many waiters (own harness: the waiting list is a heap, removals in the middle move entries between subtrees)
 def _mc(name, tier='quick', w=2, witness=False, **kw):
     defs = ['%s=%s' % (k, v) for k, v in kw.items()] + (['WITNESS=1'] if witness else [])
-    return Family(name + ('-witness' if witness else ''), 'h_c13m.c', 'h_manycond', defs, opts={'max_viol': 400, 'time_limit': 420 if tier == 'quick' else 2400},
+    return Family(name + ('-witness' if witness else ''), 'h_c13m.c', 'h_manycond', defs, opts={'max_viol': 400, 'time_limit': 900 if tier == 'quick' else 2400},
                   tier=tier, witness=witness, weight=w, validate=3)
 FAMILIES['C13'] += [_mc('manycond-6-staggered', NW=6, STAGGER=1), _mc('manycond-7-staggered', NW=7, STAGGER=1, w=3), _mc('manycond-9-staggered', NW=9, STAGGER=1, w=8),
                     _mc('manycond-6-staggered-zigzag', NW=6, STAGGER=1, PRIOSET='{5,9,1,8,2,7,3,6,4}'), _mc('manycond-6', NW=6), _mc('manycond-6', NW=6, witness=True), _mc('manycond-7', NW=7, PRIOSET='{1,2,3,4,5,6,7,8,9}', w=3),
